@@ -371,7 +371,7 @@ def f_cast(r: random.Random):
 FORMS = {"regexp_replace": f_regexp_replace, "regexp_substr": f_regexp_substr, "split": f_split, "trim": f_trim, "to_date": f_to_date,
          "to_timestamp": f_to_timestamp, "to_decimal": f_to_decimal, "dateadd": f_dateadd, "datediff": f_datediff, "sha2": f_sha2,
          "equal_null": f_equal_null, "cast": f_cast}
-SPECIAL = ["random_seed", "sample_seed", "identifier", "values_columns", "array_agg", "alias_in_join", "nulls", "created_database"]
+SPECIAL = ["random_seed", "sample_seed", "identifier", "values_columns", "array_agg", "alias_in_join", "nulls", "created_database", "nested_rewrites"]
 
 
 def gen_cases(tier: str, seed: int):
@@ -574,6 +574,36 @@ def _special(case: dict, env: core.Env) -> None:
         if a100["ok"] and len(a100["rows"]) != 40:
             env.witness("C10/sample/hundred-percent-drops-rows", str(len(a100["rows"])))
         env.nontrivial(("sample", p, s))
+    elif w == "nested_rewrites":
+        # a rewritten construct as the argument of another (or the same) rewritten construct, and DATE-valued arguments that
+        # are not written as a cast
+        h = lambda s_: hashlib.sha256(s_.encode()).hexdigest()  # noqa: E731
+        cur.execute("CREATE OR REPLACE TABLE NESTD (DT DATE, S VARCHAR)")
+        cur.execute("INSERT INTO NESTD VALUES ('2024-02-28', ' ab12cd ')")
+        tests = [
+            ("trim-in-trim", "TRIM(TRIM('  a  '))", "a"), ("regexp_replace-in-trim", "TRIM(REGEXP_REPLACE(' a-b ', '-', '+'))", "a+b"),
+            ("to_decimal-in-to_decimal", "TO_DECIMAL(TO_DECIMAL('1.55', 10, 2), 10, 1)", D("1.6")), ("sha2_hex-in-sha2_hex", "SHA2_HEX(SHA2_HEX('a'))", h(h("a"))),
+            ("sha2-in-sha2", "SHA2(SHA2('a'))", h(h("a"))),
+            ("regexp_substr-in-regexp_substr", "REGEXP_SUBSTR(REGEXP_SUBSTR('ab12cd34', '[a-z]+[0-9]+', 1, 2), '[0-9]+')", "34"),
+            ("trim-in-split", "SPLIT(TRIM(' a,b '), ',')", {"$json": json.dumps(["a", "b"])}), ("to_timestamp-in-to_date", "TO_DATE(TO_TIMESTAMP('2024-02-28 01:02:03'))", datetime.date(2024, 2, 28)),
+            ("trim-in-regexp_substr/column", "REGEXP_SUBSTR(TRIM(S), '[0-9]+') FROM NESTD", "12"), ("trim-in-equal_null/column", "EQUAL_NULL(TRIM(S), 'ab12cd') FROM NESTD", True),
+            ("dateadd-day/date-column", "DATEADD(day, 1, DT) FROM NESTD", datetime.date(2024, 2, 29)),
+            ("dateadd-day/nested-dateadd", "DATEADD(day, 1, DATEADD(day, 1, '2024-02-28'::DATE))", datetime.date(2024, 3, 1)),
+            ("dateadd-month/to_date-of-column", "DATEADD(month, 1, TO_DATE(S)) FROM (SELECT '2024-01-31' AS S)", datetime.date(2024, 2, 29)),
+            ("dateadd-hour/date-column", "DATEADD(hour, 1, DT) FROM NESTD", datetime.datetime(2024, 2, 28, 1, 0)),
+            ("datediff/dateadd-of-column", "DATEDIFF(day, DT, DATEADD(day, 3, DT)) FROM NESTD", 3),
+        ]
+        for name, expr_, want in r.sample(tests, 6):
+            o = core.run_stmt(cur, f"SELECT {expr_}")
+            env.count("cmp_value")
+            if not o["ok"]:
+                env.witness(f"C10/nested/rejected/{name}", f"SELECT {expr_}: {o['exc']['msg'][:200]}")
+                continue
+            got = o["rows"][0][0] if o["rows"] else "<<no row>>"
+            bad = _same(got, want)
+            if bad:
+                env.witness(f"C10/nested/{bad}/{name}", f"SELECT {expr_} -> {got!r} expected {want!r}")
+        env.nontrivial(("nested_rewrites", r.random()))
     elif w == "created_database":
         # the rewritten constructs work the same in a database made by a CREATE DATABASE statement (not by connect)
         name = f"MADE{r.randrange(10**6)}"
